@@ -173,7 +173,7 @@ func (a Tuple) M__eq__(other Object) (Object, error) {
 		return False, nil
 	}
 	for i := range a {
-		eq, err := Eq(a[i], b[i])
+		eq, err := ItemEq(a[i], b[i])
 		if err != nil {
 			return nil, err
 		}
@@ -197,7 +197,7 @@ func (a Tuple) M__ne__(other Object) (Object, error) {
 		return True, nil
 	}
 	for i := range a {
-		eq, err := Eq(a[i], b[i])
+		eq, err := ItemEq(a[i], b[i])
 		if err != nil {
 			return nil, err
 		}
